@@ -47,13 +47,14 @@ pub fn sweeps(ctx: &Ctx) -> Vec<Sweep> {
             Ok(Err(k)) => acc.count(&format!("rejected: {}", k)),
             Err(_) => acc.count("parse: panic (C04's business)"),
         }
-    }), crate::c01::run_dribble()]
+    }), crate::c01::run_dribble(), crate::c01::run_unknown_types()]
 }
 
 pub fn run(ctx: &Ctx) -> i32 {
     let sw = sweeps(ctx);
     let (s1, _ev) = run_sweep(ctx, &sw[0]);
     let (s_dr, _ev) = run_sweep(ctx, &sw[1]);
+    let (s_ut, _ev) = run_sweep(ctx, &sw[2]);
     // the public header API: Header::clear() / Header::new_empty() on the signature header
     let mut h = Acc::new();
     {
@@ -102,7 +103,7 @@ pub fn run(ctx: &Ctx) -> i32 {
     }
     ctx.finish(
         "exploration",
-        vec![s1, s_dr, s_api, s2, s3],
+        vec![s1, s_dr, s_ut, s_api, s2, s3],
         &["offset arithmetic is exercised for every signature-store residue mod 8; header sizes beyond the enumerated ones are covered by the assets and the corpus only"],
         vec![],
     )
